@@ -12,6 +12,12 @@ CALLABLE = list(range(13))                  # allocator registry of h_c04_util.h
 FAMILY = {0: "N", 3: "N", 9: "N", 1: "A", 4: "A", 2: "M", 5: "M", 10: "M", 11: "M", 6: "CA", 7: "CA", 8: "CB", 12: "CB"}
 
 
+ACQ_FORMS = {"new": ["new", "new_fi", "new_fs", "new_nt"], "newarray": ["newa", "newa_fi", "newa_fs", "newa_nt"], "malloc": ["malloc"]}
+REL_FORMS = {"new": ["del", "del_fi", "del_fs", "del_sz", "del_nt"], "newarray": ["dela", "dela_fi", "dela_fs", "dela_sz", "dela_nt"],
+             "malloc": ["free"]}
+FAMILY_OF_KIND = {"N": "new", "A": "newarray", "M": "malloc"}
+
+
 class Gen:
     """tracks what the generator needs to keep histories mostly valid: which slots are occupied in the arena,
     which labels are tracked, their stage and period"""
@@ -28,6 +34,7 @@ class Gen:
         self.no_drop = False    # malformed stream: the generator's picture of the detector may be wrong, never drop
         self.period = "disabled"
         self.stage = 0
+        self.cur = {"new": 0, "newarray": 1, "malloc": 2}      # current allocators of the three families (setcur)
         self.hot = [rng.randrange(HP) for _ in range(rng.choice([1, 2, 3]))]
         self.typecheck = True
         # bookkeeping layout of the history: every block inline, every block with a separate node, or per family
@@ -83,6 +90,45 @@ class Gen:
         self.ops.append("alloc %s %d %d %d %s %d %d" % (l, s, size, ai, f, ln, sep))
         self.blocks[l] = dict(slot=s, size=size, alloc=ai, sep=sep, stage=self.stage, period=self.period, tracked=True)
         self.occupied.add(s)
+
+    def galloc(self):
+        """a block through one of the real acquiring overloads (every form: plain, file/line with int or size_t line, nothrow,
+        [] variants, cpputest_malloc_location)"""
+        rng = self.rng
+        s = self.pick_slot()
+        if s is None:
+            return
+        fam = rng.choice(["new", "newarray", "malloc"])
+        form = rng.choice(ACQ_FORMS[fam])
+        l, size = self.new_label(), self.size()
+        f, ln = self.loc()
+        self.ops.append("gacq %s %s %d %d %s %d" % (form, l, s, size, f, ln))
+        self.blocks[l] = dict(slot=s, size=size, alloc=self.cur[fam], sep=(fam == "malloc"), stage=self.stage, period=self.period,
+                              tracked=True, gfam=fam)
+        self.occupied.add(s)
+
+    def grelease_paired(self):
+        """a block goes back through one of the releasing overloads of its own family (any form)"""
+        rng = self.rng
+        cands = [l for l in self.tracked() if self.blocks[l].get("gfam")]
+        if not cands:
+            return
+        l = rng.choice(cands)
+        b = self.blocks[l]
+        f, ln = self.loc()
+        self.ops.append("grel %s %s 0 %s %d" % (rng.choice(REL_FORMS[b["gfam"]]), l, f, ln))
+        b["tracked"] = False
+        self.occupied.discard(b["slot"])
+        self.stale.append(l)
+
+    def setcur(self):
+        fam = self.rng.choice(["new", "newarray", "malloc"])
+        ai = self.rng.choice(CALLABLE)
+        self.ops.append("setcur %s %d" % (fam, ai))
+        self.cur[fam] = ai
+
+    def overloads_op(self):
+        self.ops.append("overloads " + self.rng.choice(["threadsafe", "threadsafe", "plain"]))
 
     def release_args(self, b):
         rng = self.rng
@@ -226,7 +272,13 @@ class Gen:
     def step(self):
         x = self.rng.random()
         n = len(self.tracked())
-        if x < 0.36 or n == 0 and x < 0.6:
+        if x < 0.05:
+            self.galloc()
+        elif x < 0.08:
+            self.grelease_paired()
+        elif x < 0.09:
+            self.setcur() if self.rng.random() < 0.5 else self.overloads_op()
+        elif x < 0.36 or n == 0 and x < 0.6:
             self.alloc()
         elif x < 0.60:
             self.free()
